@@ -5,4 +5,4 @@ cd "$(dirname "$0")/../coq" || exit 2
 mkdir -p ../.cache
 exec flock ../.cache/coq.lock bash -c '
   if [ ! -f Makefile ] || [ _CoqProject -nt Makefile ]; then coq_makefile -f _CoqProject -o Makefile >/dev/null || exit 2; fi
-  timeout 3000 make -j12 "$@" 2>&1 | grep -v "^COQDEP\|^COQC\|^make\[" ; exit ${PIPESTATUS[0]}' _ "$@"
+  timeout 3000 make -j12 "COQC=timeout 1200 coqc" "$@" 2>&1 | grep -v "^COQDEP\|^COQC\|^make\[" ; exit ${PIPESTATUS[0]}' _ "$@"
